@@ -2,6 +2,7 @@ import MuduoVerif.Proofs.LogStream
 import MuduoVerif.Proofs.LogStreamTid
 import MuduoVerif.Proofs.LogStreamNum
 import MuduoVerif.Proofs.LogStreamSkelTie
+import MuduoVerif.Proofs.ThreadSkelTie
 /-!
 # C17 — log text equals printf output, stays in bounds and carries true metadata
 
@@ -300,5 +301,29 @@ theorem statement_order_tied :
     Gen.LogStreamSkel.finish = LogStreamSkel.Decl.finish ∧
     Gen.LogStreamSkel.loggerDtor = LogStreamSkel.Decl.loggerDtor :=
   LogStreamSkel.skeletons_agree
+
+end MuduoVerif.C17
+
+namespace MuduoVerif.C17
+
+/-- **tid_cache_refresh_tied**: the functions behind the tid field of a log line do what `Model/LogStream.lean` takes
+them to do (`tidCall`, `cacheTid`, `entryState`): `CurrentThread::tid()` calls `cacheTid()` exactly when the cached
+number is 0 and returns the cached number; `cacheTid()` writes the number (`detail::gettid()` =
+`syscall(SYS_gettid)`), its text (`snprintf` of THAT number into `t_tidString`) and the text's length together, under
+one test; `detail::afterFork` - the `pthread_atfork` CHILD handler the static `ThreadNameInitializer` registers -
+empties the cache and calls `tid()`, i.e. recomputes both cached forms (number AND text) through `cacheTid`, it does
+not patch the number alone; a `muduo::Thread` fills its cache in `runInThread` before it runs anything else.
+Statement skeletons re-extracted from /repo on every run (`Generated/ThreadSkel.lean`), equal to
+`Model/ThreadSkelDecl.lean`. -/
+theorem tid_cache_refresh_tied :
+    Gen.ThreadSkel.tid = ThreadSkel.Decl.tid ∧
+    Gen.ThreadSkel.cacheTid = ThreadSkel.Decl.cacheTid ∧
+    Gen.ThreadSkel.gettid = ThreadSkel.Decl.gettid ∧
+    Gen.ThreadSkel.afterFork = ThreadSkel.Decl.afterFork ∧
+    Gen.ThreadSkel.threadNameInitializer = ThreadSkel.Decl.threadNameInitializer ∧
+    Gen.ThreadSkel.runInThread = ThreadSkel.Decl.runInThread ∧
+    Gen.ThreadSkel.isMainThread = ThreadSkel.Decl.isMainThread :=
+  ⟨ThreadSkel.skeleton_tid, ThreadSkel.skeleton_cacheTid, ThreadSkel.skeleton_gettid, ThreadSkel.skeleton_afterFork,
+   ThreadSkel.skeleton_threadNameInitializer, ThreadSkel.skeleton_runInThread, ThreadSkel.skeleton_isMainThread⟩
 
 end MuduoVerif.C17
